@@ -217,6 +217,7 @@ def run_csv_case(case: Dict[str, Any], res: ShardResult, tmpdir: str) -> None:
 
     got = []
     raised = None
+    other_exc: List[str] = []
 
     async def drive():
         nonlocal raised
@@ -227,6 +228,9 @@ def run_csv_case(case: Dict[str, Any], res: ShardResult, tmpdir: str) -> None:
                     ev = src.pop()
                 except bbar.InvalidBar as e:
                     raised = e
+                    break
+                except Exception as e:  # anything else escaping from the source is a failure to read the file
+                    other_exc.append(f"{type(e).__name__}: {e}")
                     break
                 if ev is None:
                     break
@@ -248,6 +252,8 @@ def run_csv_case(case: Dict[str, Any], res: ShardResult, tmpdir: str) -> None:
         res.violate(Violation("C19", kind, f"{case['cls']} {case['period']} {case['encoding']} sort={case['sort']} "
                                            f"order={case['order']}: {msg}", scenario=case))
 
+    if other_exc:
+        bad("csv_source_raised", f"reading the file raised {other_exc[0]}")
     tuples = []
     for ev in got:
         b = ev.bar
@@ -510,10 +516,14 @@ def run_trade_case(case: Dict[str, Any], res: ShardResult) -> None:
                                   f"(pushed {f - t['push_us']}us before the nominal flush) is in no bar",
                     mechanism="" if nt else "window_tail_trade_dropped")
         if counted:
-            prices = [Decimal(t["price"]) for t in counted]   # push order == accepted order
+            # first / last are meant in time: an aggregator that only ever accepts in-order trades has push order ==
+            # time order; one that lets an older trade in after a newer one gets open/close wrong.
+            by_time = sorted(counted, key=lambda t: t["ts_us"])   # stable: ties keep push order
+            prices = [Decimal(t["price"]) for t in by_time]
             exp = (prices[0], max(prices), min(prices), prices[-1])
             if (b.open, b.high, b.low, b.close) != exp:
-                bad("bar_ohlc_mismatch", f"window {w}: got {(b.open, b.high, b.low, b.close)} expected {exp}")
+                bad("bar_ohlc_mismatch", f"window {w}: got {(b.open, b.high, b.low, b.close)} expected {exp} "
+                                         f"(trades in push order: {[(t['ts_us'], t['price']) for t in counted]})")
     if any(a >= b for a, b in zip(seen_windows, seen_windows[1:])):
         bad("bars_out_of_order", f"bars emitted for windows {seen_windows}")
     for w, ts in must.items():
